@@ -30,7 +30,7 @@ namespace {
 /** "at most 288 blocks above the tip" — the constant of the property statement (not taken from validation.h). */
 constexpr int kWindow = 288;
 
-enum { OP_CHAIN = 100, OP_UNREQ = 101, OP_REQ = 102, OP_HEADERS = 103 };
+enum { OP_CHAIN = 100, OP_UNREQ = 101, OP_REQ = 102, OP_HEADERS = 103, OP_REGRESS = 104 };
 
 /** How a delivery op picks its block, relative to the active tip at the time the op executes. */
 enum Cat { CAT_ANY = 0, CAT_PLUS_288, CAT_PLUS_289, CAT_PLUS_287, CAT_NEAR_ABOVE, CAT_EQUAL_WORK, CAT_LESS_WORK, CAT_MIN_WORK_EDGE, CAT_DROPPED_BEFORE, CAT_TIP_CHILD, CAT_OWN_DEFECT, N_CATS };
@@ -56,6 +56,7 @@ std::string Describe(const Op& op)
         break;
     case OP_UNREQ: snprintf(b, sizeof b, "FAULT unrequested_block(%s#%ld, times=%ld)%s", kCatNames[op.mod(0, N_CATS)], (long)op.arg(1), (long)std::clamp<int64_t>(op.arg(3), 1, 2), op.arg(2) ? " then requested_block(same)" : ""); break;
     case OP_REQ: snprintf(b, sizeof b, "requested_block(%s#%ld)", kCatNames[op.mod(0, N_CATS)], (long)op.arg(1)); break;
+    case OP_REGRESS: snprintf(b, sizeof b, "tip falls back below the minimum chain work (invalidateblock) after the node left initial block download, then FAULT unrequested child of the new tip, then reconsiderblock"); break;
     case OP_HEADERS: snprintf(b, sizeof b, "headers(up to %s#%ld)", kCatNames[op.mod(0, N_CATS)], (long)op.arg(1)); break;
     default: snprintf(b, sizeof b, "?");
     }
@@ -106,6 +107,7 @@ Plan Gen(uint64_t seed, Tier tier)
     catw[CAT_ANY] = std::max<uint32_t>(catw[CAT_ANY], 2);
     for (int i = 0; i < nops; ++i) {
         Op op;
+        if (mcw > 0 && i > nops / 3 && rng.chance(1, 12)) { op.kind = OP_REGRESS; op.a = {(int64_t)(rng.next() >> 16)}; p.ops.push_back(op); continue; }
         switch (rng.pick({8, 55, 14, 5})) {
         case 0: {
             bool lng = long_left > 0 && rng.chance(1, 2);
@@ -512,6 +514,45 @@ struct Sim {
         return mix64(mix64((uint64_t)t + 3, ref().blocks.size()), mix64(mix64(nk, nd), mix64(scan.nrecords, (uint64_t)decided)));
     }
 
+    /** The tip can fall back below the minimum chain work after the node has left initial block download (the IBD flag never goes
+     *  back to true): the minimum-chain-work condition for unrequested blocks must still hold then. */
+    void Regress(const Op& op)
+    {
+        if (mcw == arith_uint256(0)) return;
+        const int t = Tip();
+        if (ChainWork(t) < mcw) return;
+        if (cs.node->cm().IsInitialBlockDownload()) { ctx.probe("regress_skipped_still_in_ibd"); return; }
+        // the highest ancestor `a` of the tip whose parent is at least two blocks of work short of the minimum
+        int a = t;
+        int depth = 0;
+        while (ref().blocks[a].parent > 0 && !(ChainWork(ref().blocks[a].parent) + W + W <= mcw) && depth < 60) { a = ref().blocks[a].parent; ++depth; }
+        const int nt = ref().blocks[a].parent;
+        if (nt <= 0 || !(ChainWork(nt) + W + W <= mcw)) return;
+        CBlockIndex* pi = WITH_LOCK(cs_main, return cs.node->cm().m_blockman.LookupBlockIndex(ref().blocks[a].hash));
+        if (!pi) return;
+        BlockValidationState st, st2;
+        cs.node->cs().InvalidateBlock(st, pi);
+        cs.node->cs().ActivateBestChain(st2);
+        cs.node->DrainSignals();
+        CheckFatal();
+        const int t2 = Tip();
+        if (ChainWork(t2) + W <= mcw && ref().blocks[t2].verdict == Verdict::VALID) {
+            int idx = cs.MineOn(t2, 0, (uint64_t)op.arg(0), D_NONE, B_NONE, 1);
+            Grow();
+            ctx.probe("unrequested_block_below_minimum_work_after_ibd");
+            Unrequested(idx);
+        }
+        {
+            LOCK(cs_main);
+            cs.node->cs().ResetBlockFailureFlags(pi);
+            cs.node->cm().RecalculateBestHeader();
+        }
+        BlockValidationState st3;
+        cs.node->cs().ActivateBestChain(st3);
+        cs.node->DrainSignals();
+        CheckFatal();
+    }
+
     void Run()
     {
         Setup();
@@ -538,6 +579,7 @@ struct Sim {
                 GiveHeaders(i);
                 break;
             }
+            case OP_REGRESS: Regress(op); break;
             default: break;
             }
             ctx.fingerprint(Fingerprint());
